@@ -1,4 +1,4 @@
-import Nstd.Avl.LemmasProps
+import Nstd.Avl.LemmasCost
 /-
   Property C01 — Map and MultiMap stay sorted, complete and logarithmically deep.
 
@@ -10,9 +10,7 @@ import Nstd.Avl.LemmasProps
   keys/values of the tree; `iter_run` shows it is what iteration `begin()…end()` yields.
   All theorems quantify over every history, i.e. over every reachable tree shape; keys are `Int`.
 
-  Not covered by theorems (only by the correspondence run of tools/areas/avl.py): the key
-  comparison counts of insert / remove / count (the model computes them, no theorem bounds them),
-  and the free-list order of item ids.  Out of scope of C01: self-assignment, copies of MultiMap
+  Not covered by theorems (only modelled): the free-list order of item ids.  Out of scope of C01: self-assignment, copies of MultiMap
   (defects D2/D5, property C04), allocation failure.
 -/
 namespace Nstd.Avl
@@ -270,6 +268,89 @@ theorem find_cost_log_run (multi : Bool) (ops : List Op) (k : Int) (H : Nat)
     (hH : IsLogBound (run multi ops).size H) : (run multi ops).findCmps k ≤ 2 * H :=
   find_cost_log (reach_run multi ops) k H hH
 
+/-- the height of every reachable tree is at most `⌊1.4405·log2(n+2)⌋` -/
+theorem height_le {multi : Bool} {s : St} (hr : Reach multi s) (H : Nat) (hH : IsLogBound s.size H) :
+    s.t.height ≤ H := by
+  have h2 := height_log hr
+  have h3 : 2 ^ (10000 * s.t.height) < 2 ^ (10000 * (H + 1)) := Nat.lt_of_le_of_lt h2 hH.2
+  have h4 := (Nat.pow_lt_pow_iff_right (by omega : 1 < 2)).mp h3
+  omega
+
+/-- **Cost of every operation** (beyond the property's sentence): no op makes more than
+    `2·⌊1.4405·log2(n+2)⌋ + 3` key comparisons, `count` additionally one per entry it counts. -/
+theorem op_cost_log {multi : Bool} {s : St} (hr : Reach multi s) (H : Nat) (hH : IsLogBound s.size H)
+    (op : Op) (r : St × Out) (h : step s op = some r) :
+    r.2.cmps ≤ 2 * H + 3 + (match r.2.ret with | .num n => n | _ => 0) := by
+  have hh := height_le hr H hH
+  have hf : ∀ k, s.findCmps k ≤ 2 * H := fun k => by have := find_cost hr k; omega
+  cases op with
+  | insert k v =>
+    simp only [step, Option.some.injEq] at h; subst h
+    have := insertRoot_cmps_le s k v 0; omega
+  | insertAt p k v =>
+    simp only [step] at h
+    split at h
+    · have := insertAt_cmps_le s p k v r h; omega
+    · simp at h
+  | removeKey k =>
+    simp only [step] at h
+    have := hf k
+    split at h
+    · cases hr' : s.removeAt _ (s.findCmps k) with
+      | none => rw [hr'] at h; simp at h
+      | some r' =>
+        rw [hr'] at h
+        simp only [Option.map_some, Option.some.injEq] at h; subst h
+        unfold St.removeAt at hr'
+        split at hr'
+        · simp at hr'
+        · simp only [Option.some.injEq] at hr'; subst hr'; simp only; omega
+    · simp only [Option.some.injEq] at h; subst h; simp only; omega
+  | removeAt p =>
+    simp only [step] at h
+    unfold St.removeAt at h
+    split at h
+    · simp at h
+    · simp only [Option.some.injEq] at h; subst h; simp only; omega
+  | removeFront =>
+    simp only [step] at h
+    unfold St.removeAt at h
+    split at h
+    · simp at h
+    · simp only [Option.some.injEq] at h; subst h; simp only; omega
+  | removeBack =>
+    simp only [step] at h
+    split at h
+    · simp at h
+    · unfold St.removeAt at h
+      split at h
+      · simp at h
+      · simp only [Option.some.injEq] at h; subst h; simp only; omega
+  | clear => simp only [step, Option.some.injEq] at h; subst h; simp only; omega
+  | find k => simp only [step, Option.some.injEq] at h; subst h; have := hf k; simp only; omega
+  | contains k => simp only [step, Option.some.injEq] at h; subst h; have := hf k; simp only; omega
+  | count k =>
+    simp only [step] at h
+    have := hf k
+    split at h
+    · split at h
+      · simp only [Option.some.injEq] at h; subst h; simp only; omega
+      · rename_i p _
+        simp only [Option.some.injEq] at h; subst h
+        have := countWalk_cmps k (List.drop (p + 1) s.t.inorder)
+        simp only; omega
+    · simp at h
+  | front =>
+    simp only [step] at h
+    split at h
+    · simp only [Option.some.injEq] at h; subst h; simp only; omega
+    · simp at h
+  | back =>
+    simp only [step] at h
+    split at h
+    · simp only [Option.some.injEq] at h; subst h; simp only; omega
+    · simp at h
+
 /-- the comparison count the `find` op of the model reports is the one bounded above -/
 theorem find_op_cmps (s : St) (k : Int) : ∃ r, step s (.find k) = some r ∧ r.2.cmps = s.findCmps k :=
   ⟨_, rfl, rfl⟩
@@ -322,10 +403,6 @@ theorem multi_insert_stable (ops : List Op) (k v : Int) :
   * Keys are `Int`.  The generalisation "for every key type whose `<`/`>` form a strict total
     order" (DESIGN.md C01/X) is not stated: the model is monomorphic.
        theorem find_cost_log_any_order {K} [LinearOrder K] … : (analogue of find_cost_log)
-  * Key comparison counts of insert / hinted insert / remove(key) / count are computed by the
-    model (`Out.cmps`) and compared with the real code on every run, but no theorem bounds them
-    (the property only speaks about `find`).
-       theorem insert_cost_log … : (s.insertRoot k v 0).2.cmps ≤ 2 * H     -- not proved
   * The free-list discipline (LIFO reuse of item addresses, blocks of 4) is modelled (`St.alloc`,
     invariant: ids distinct and disjoint from the free list) but addresses are not observable
     through the public API and are not compared by the correspondence run.
